@@ -51,10 +51,11 @@ def run(chk):
     thorough = chk.tier == "thorough"
     binary = vlib.harness_build()
     cl.model_check_stream(chk)
-    sc = cl.gen_scenarios(chk, "C09", thorough)
+    ppt, rcm = cl.calibrate(chk, binary)
+    sc = cl.gen_scenarios(chk, "C09", thorough, ppt, rcm)
     walks = multi_fault(chk.seed, 5000 if thorough else 200)
     out = cl.run_scenarios(binary, sc + walks, wd, "c09")
-    outs, pfl = cl.validate_conn(chk, out, wd, "c09", shard=200)
+    outs, pfl = cl.validate_conn(chk, out, wd, "c09", shard=200, ppt=ppt, rcm=rcm)
     cl.report_conn(chk, outs, pfl, {"P09"}, WHAT)
     chk.cov["traces_validated_against_impl"] = len(outs)
     chk.cov["evaluations"] = len(outs)
